@@ -219,3 +219,43 @@ def ascii_identity(fx, name):
                         return (False, "the ASCII branch reads a value carried over from an earlier iteration (%s): the escaper is not stateless on ASCII input" % vstr(x, 3))
                     stack.extend(x.kids)
     return (True, "inside the one loop over the input's items the ASCII branch appends exactly the item and reads no state from earlier iterations; nothing is written outside the loop")
+
+
+def json_u_escape_form(fx, name):
+    """the non-ASCII branch of a `\\uXXXX` escaper: every `format!` / `write!` in the function whose template is the literal `\\u` followed by
+    one hexadecimal placeholder must ask for exactly four zero-padded digits (`{:04x}` / `{:04X}`): JSON's escape is `\\u` plus exactly four
+    hex digits, so `\\u{:x}` (é -> `\\ue9`) or `{:4x}` (space-padded) produces text that is not JSON. Returns (True|False|None, why); None when
+    no such template is found (another way of producing the escape: not interpreted)."""
+    fn = fx.view(name) if name in fx.fns else None
+    if fn is None:
+        return (None, "unknown function")
+    fv = vals(fn)
+    seen = 0
+    for b, t in fn.calls():
+        if not (t.get("resolved") or t.get("callee") or "").startswith(("std::fmt::Arguments", "core::fmt::Arguments")):
+            continue
+        n = fv.call_node(b)
+        if not n.kids or n.kids[0].kind != "const":
+            continue
+        tv = (n.kids[0].d.get("c") or {}).get("value") or {}
+        if "bytes" not in tv:
+            continue
+        pcs = common.decode_template_full(tv["bytes"])
+        if not pcs or len(pcs) != 2 or pcs[0] != ("lit", "\\u") or pcs[1][0] != "arg":
+            continue
+        hexarg = False
+        if len(n.kids) > 1:
+            arr = peel(n.kids[1])
+            if arr.kind == "agg" and len(arr.kids) == 1 and arr.kids[0].kind == "call" and arr.kids[0].d["term"].get("name") in ("new_lower_hex", "new_upper_hex"):
+                hexarg = True
+        if not hexarg:
+            continue
+        seen += 1
+        spec = pcs[1][1]
+        zero = bool((spec.get("flags") or 0) & (1 << 24))
+        if spec.get("width") != 4 or not zero or spec.get("width_indirect"):
+            return (False, "the escape is written as `\\u` + a hexadecimal number %s: JSON requires exactly four hex digits (`{:04x}`), so characters below U+1000 "
+                           "produce text that is not valid JSON" % ("of minimal width" if spec.get("width") is None else "padded to width %s%s" % (spec.get("width"), "" if zero else " with spaces")))
+    if seen:
+        return (True, "every `\\u` escape is followed by exactly four zero-padded hex digits")
+    return (None, "no `\\u{:..x}` template found")
